@@ -129,6 +129,13 @@ def gen_context(rng):
         return dict(kind="top-doc", prefix="--- " + props, parent=-1, before=[], levels=[])
     if r < 0.31:
         return dict(kind="top-directive", prefix="%YAML 1.2\n--- ", parent=-1, before=[], levels=[])
+    if r < 0.36:
+        # a block sequence at the column of the mapping key that owns it ("indentless" sequence)
+        col = rng.choice([0, 0, 2, 5, 14])
+        pre = "" if col == 0 else "top:\n"
+        before = ["k0"] if col == 0 else ["top", "k0"]
+        text = pre + " " * col + "k0:\n" + " " * col + "-" + rng.choice([" ", "  ", "\t"])
+        return dict(kind="indentless-seq", prefix=text, parent=col, before=before, levels=[("seq", col)])
     depth = rng.choice([1, 1, 1, 2, 2, 3, 3, 4])
     levels = []
     col = rng.choice([0, 0, 0, 0, 0, 1, 2, 14])
@@ -169,12 +176,6 @@ def gen_context(rng):
                 at_line_start = True
     props = rng.choice(["", "", "", "", "!!str ", "&a ", "!t "])
     return dict(kind="nested", prefix=text + props, parent=levels[-1][1], before=before, levels=levels)
-
-
-def fix_indentless(ctx):
-    """a block sequence directly under a mapping key may sit at the key's own column: not generated here (the
-    sibling computation below assumes strictly increasing columns)"""
-    return ctx
 
 
 def gen_follower(rng, ctx, n, has_text):
